@@ -1,5 +1,6 @@
 import FastQr.Proofs.BlockSplit
 import FastQr.Proofs.RoundTrip
+import FastQr.Proofs.Distance
 /-
 C02 end to end: EC codewords are bytes; the reference decoder's block split of the final matrix over
 `structure(data)` is (crate data slice, its EC codewords) per block with zero remainder bits; every built
@@ -162,7 +163,8 @@ theorem built_blocks (inp : List Nat) (o : Opts) (b : Built) (hb : Spec.IsBytes 
       r.remainder = List.replicate (Iso.remainderBits b.version) false ∧
       r.blocks.map (·.1.length) = Decode.blockSizes b.version b.ecl ∧
       (∀ blk ∈ r.blocks, blk.2.length = Decode.ecLen b.version b.ecl ∧
-        ∀ s ∈ GF.syndromes (blk.1 ++ blk.2) (Decode.ecLen b.version b.ecl), s = 0) := by
+        (∀ s ∈ GF.syndromes (blk.1 ++ blk.2) (Decode.ecLen b.version b.ecl), s = 0) ∧
+        Syndromes.AllBytes (blk.1 ++ blk.2) ∧ (blk.1 ++ blk.2).length ≤ 255) := by
   obtain ⟨hmode, hecl, hver, hmask, hqr⟩ := RoundTrip.build_unfold inp o ho b h
   obtain ⟨hv40, hfit⟩ := Props.C05.C05_no_overflow _ _ _ o.version b.version ho.1 hver
   have hfits : Spec.fits b.mode b.ecl b.version inp.length = true := by simpa [Spec.fits] using hfit
@@ -197,9 +199,28 @@ theorem built_blocks (inp : List Nat) (o : Opts) (b : Built) (hb : Spec.IsBytes 
       simp only [blkVals, List.mem_map] at hx
       obtain ⟨k, _, rfl⟩ := hx
       exact hinv.bytes _
-    refine ⟨by simp only [ecOf_length]; exact hecl'.symm, ?_⟩
-    rw [hecl']
-    apply Props.C02.C02_syndromes hv40 b.ecl _ hdat
-    simp only [blkVals, List.length_map, List.length_range]
-    exact szB_cases b.ecl b.version i
+    have hbnd := Props.C02.C02_bounds hv40 b.ecl
+    have hne : T.generator b.ecl b.version ≠ [] := by
+      intro h; have := hlay.2.2.2.2.1; rw [h] at this; simp at this
+    have hblen : (blkVals (encode inp b.ecl b.mode b.version).val.data (offB b.ecl b.version i) (szB b.ecl b.version i)).length +
+        (T.generator b.ecl b.version).length ≤ 256 := by
+      simp only [blkVals, List.length_map, List.length_range]
+      rcases szB_cases b.ecl b.version i with h | h <;> rw [h]
+      · exact hbnd.1
+      · exact hbnd.2.1
+    refine ⟨by simp only [ecOf_length]; exact hecl'.symm, ?_, ?_, ?_⟩
+    · rw [hecl']
+      apply Props.C02.C02_syndromes hv40 b.ecl _ hdat
+      simp only [blkVals, List.length_map, List.length_range]
+      exact szB_cases b.ecl b.version i
+    · intro x hx
+      rcases List.mem_append.mp hx with hx | hx
+      · exact hdat x hx
+      · exact ecOf_bytes b.ecl b.version _ hdat hne hblen x hx
+    · simp only [List.length_append, ecOf_length]
+      have : 1 ≤ (T.generator b.ecl b.version).length := by
+        cases hg : T.generator b.ecl b.version with
+        | nil => exact absurd hg hne
+        | cons _ _ => simp
+      omega
 end FastQr.Proofs.BlocksRoundTrip
